@@ -65,7 +65,7 @@ chk("C13", "fault_enumeration",
     "DESIGN.md §5 C13")
 chk("C15", "fault_enumeration",
     "exhaustive assignment enumeration of (witness answer x distributor answer) per log over the real DistributeOnce with a recording stub distributor",
-    "All 6400 assignments for 1-2 logs over a menu of 10 witness answers x 8 distributor answers, and for 3-6 logs every assignment with up to 2 (quick) / 3 (thorough) deviating logs at every position. Oracle: one PUT per valid log at the right path with byte-identical body, none for others, all logs attempted, error iff some failed with the right count.",
+    "All assignments for 1-2 logs over a menu of 15 witness answers (valid ones in five forms, incl. 70 KiB of extension lines, unknown signature lines around the witness's, the witness's line BEFORE the log's; missing, wrong key, no/invalid witness signature, corrupted, four malformed tails) x 8 distributor answers, and for 3-6 logs every assignment with up to 2 (quick) / 3 (thorough) deviating logs at every position. Oracle: one PUT per valid log at the right path with byte-identical body, none for others, all logs attempted, error iff some failed with the right count.",
     "In-process RoundTripper; a connection error is modelled as failing before the body is read. Checkpoints with a second foreign witness signature are outside the claim.",
     "DESIGN.md §5 C15")
 chk("C16", "model_checking",
